@@ -121,6 +121,18 @@ func (c20) step(t []string) string {
 	switch t[0] {
 	case "coal":
 		return itoa(typ.Coal(parseInts(t[1])...))
+	case "coalm": // Coal over a comparable type WITH an IsZero method (even fields, or the sentinel 7): "non-zero" is Go's `!= zero value`
+		var zs []zeroer
+		var ss []sentinelZero
+		for _, v := range parseInts(t[1]) {
+			zs = append(zs, zeroer{v})
+			ss = append(ss, sentinelZero{v})
+		}
+		a, b := typ.Coal(zs...).a, typ.Coal(ss...).a
+		if a != b {
+			return "instances-differ:" + itoa(a) + ":" + itoa(b)
+		}
+		return itoa(a)
 	case "iszero":
 		return btoa(typ.IsZero(atoi(t[1])))
 	case "tern":
